@@ -175,10 +175,14 @@ def find_items(src, lo=0, hi=None, toks=None):
                 continue
             if t.kind == 'punct' and t.text == '#':
                 k = j + 1
+                inner = False
                 if k < n and ts[k].text == '!':
                     k += 1
+                    inner = True
                 if k < n and ts[k].text == '[':
                     j = match_close(ts, k) + 1
+                    if inner:
+                        first = j   # inner attribute belongs to the enclosing module, not to the next item
                     continue
             break
         if j >= n:
